@@ -12,7 +12,7 @@ blocked (model) or parked (script) and prints the same status line.
 Protocol (one case):
   case <n>
   sys <nres> <c0> <p0>
-  res <r> <inc> <interval> <scale> <gated> <clk> <restart>
+  res <r> <inc> <interval> <scale> <gated> <clk> <restart> <debugger 0..3, ignored by the model>
   spawn | go r | adv c dt | pause r | resume r | sendp r | sendr r | stop r | open | hold r |
   release r | setin r v | mapply r n=v,.. | msnap r n,n,.. | join        (each followed by `impl`)
   fromrt n,n,.. | scyc r inp | spaused r | sresume r | sjoin r | sfinal    (api and stress cases)
@@ -210,7 +210,9 @@ def step (d : D) (line : String) : D × Option String :=
                 stressErr := Array.replicate n none,
                 stressShared := (fromRuntime ns (counterInit c0 p0)).getD Store.empty }, none)
     | _, _, _, _ => (d, some "bad-op")
-  | ["res", r, inc, iv, sc, g, c, rs] =>
+  | "res" :: r :: inc :: iv :: sc :: g :: c :: rs :: _dbg =>
+    -- the last field (debugger attached / breakpoint armed / hit) is deliberately ignored: in the
+    -- model the locked closure is one critical section whatever the debugger does
     match r.toNat?, inc.toInt?, iv.toInt?, sc.toNat?, parseBool? g, c.toNat?, parseBool? rs with
     | some r, some inc, some iv, some sc, some g, some c, some rs =>
       if r ≥ d.n then (d, some "bad-op") else
